@@ -728,10 +728,11 @@ func litOverhead(L int) int {
 
 var lateLs = []int{1024, 2048, 4096, 4400, 5000, 8192, 12000, 16384, 32768, 50000, 65535, 65536, 65537, 70000, 120000}
 
-// lateRest: candidate values of m+tail around the literal-run overhead of L, and a few absolute ones
+// lateRest: candidate values of m+tail around the literal-run overhead of L, fractions of it (other buffer
+// strategies have other break-even points), and a few absolute ones
 func lateRest(L int) []int {
 	o := litOverhead(L)
-	return []int{8, 14, 20, o - 8, o - 2, o - 1, o, o + 1, o + 2, o + 8, 2*o + 5, L/128 + 16}
+	return []int{8, 14, 20, o / 4, o / 2, 3 * o / 4, o - 8, o - 2, o - 1, o, o + 1, o + 2, o + 8, 2*o + 5, L/128 + 16}
 }
 
 func genLate(r *vh.Rng, Ls []int) (string, string) {
